@@ -1,6 +1,7 @@
 package main
 
 import (
+	"strings"
 	"verifharness/docs"
 	"verifharness/gen"
 	"verifharness/mon"
@@ -146,5 +147,18 @@ func c16(r *mon.Run) {
 			tree, doc, _ := sizedCase(i, th)
 			c16Check(r, t, "sized-arrays", i, gen.SpellTight(tree), doc)
 		}}
-	r.Exec(fm, emp, rnd, sized)
+	// numbers read from text on and around the edges of the machine formats: what comes back is a finite float64 or null
+	edgeTmpl := []string{"to_number(a)", "to_number('%s')", "[to_number(a)]", "{n: to_number(a)}", "x[*].to_number(@)", "map(&to_number(@), x)", "sum(x[*].to_number(@))", "avg([to_number(a), to_number(a)])", "max([to_number(a), `0`])", "abs(to_number(a))", "ceil(to_number(a))", "floor(to_number(a))",
+		"to_number(a) || `0`", "not_null(to_number(a), `0`)", "sort(x[*].to_number(@))", "to_number(to_string(to_number(a)))", "to_string(to_number(a))", "sum([to_number(a), to_number(a)])", "`%s`", "[`%s`, `-%s`]", "sum([`%s`, `%s`])", "avg([`%s`, `-%s`])", "abs(`-%s`)"}
+	edge := mon.Workload{Name: "numbers-from-text-at-the-edges-of-the-formats", N: len(edgeNumberStrings) * len(edgeTmpl), Batch: 500,
+		Describe: func(i int) string { return edgeNumberStrings[i/len(edgeTmpl)] + " in " + edgeTmpl[i%len(edgeTmpl)] },
+		Do: func(i int, t *mon.Tally) {
+			sv := edgeNumberStrings[i/len(edgeTmpl)]
+			tm := edgeTmpl[i%len(edgeTmpl)]
+			if strings.Contains(tm, "-%s") && strings.HasPrefix(sv, "-") {
+				return
+			}
+			c16Check(r, t, "numbers-from-text-at-the-edges-of-the-formats", i, strings.ReplaceAll(tm, "%s", sv), map[string]interface{}{"a": sv, "x": []interface{}{"1", sv, "-" + strings.TrimPrefix(sv, "-")}})
+		}}
+	r.Exec(fm, emp, rnd, sized, edge)
 }
